@@ -2,8 +2,9 @@
 
    Draws: [draw_ok] is the declarative reading of "the drawn parameters respect every
    configured limit"; [draw_okb] is its boolean form, evaluated by the harness on what the
-   implementation drew ([slack] absorbs float32 rounding of the real-valued warp
-   parameters and of a non-dyadic proportion; 0 in the theorems).
+   implementation drew ([wslack] absorbs the epsilon the code subtracts from len/2 and
+   the float32 rounding of the real-valued warp parameters, [pslack] the float32 rounding
+   of a non-dyadic proportion; the theorems use wslack = eps and pslack = 0).
    Masking: [masked_cell] says which cells a parameter tuple masks.
    Linear warp: [mono_okb] / [pinned_okb] read "valid frames are read in non-decreasing
    order, beginning and ending within half a frame of the first and last valid frame" on
@@ -49,10 +50,10 @@ Definition opt_ok {A} (P : A -> Prop) (o : option A) : Prop :=
 
 (* a parameter group may always be absent (nothing is then warped or masked); if the
    configuration disables it, a present group must be trivial, which the caps enforce *)
-Definition draw_ok (slack : Q) (c : cfg) (F len : Z) (p : params) : Prop :=
-  opt_ok (warp_ok slack (c_Wt c) len) (p_tw p)
-  /\ opt_ok (warp_ok slack (c_Wf c) F) (p_fw p)
-  /\ opt_ok (tmasks_ok slack c len) (p_tm p)
+Definition draw_ok (wslack pslack : Q) (c : cfg) (F len : Z) (p : params) : Prop :=
+  opt_ok (warp_ok wslack (c_Wt c) len) (p_tw p)
+  /\ opt_ok (warp_ok wslack (c_Wf c) F) (p_fw p)
+  /\ opt_ok (tmasks_ok pslack c len) (p_tm p)
   /\ opt_ok (fmasks_ok c F) (p_fm p).
 
 (* ---- boolean forms --------------------------------------------------------------- *)
@@ -80,10 +81,10 @@ Definition warp_okb (slack : Q) (Wmax : Q) (len : Z) (p : Q * Q) : bool :=
 Definition opt_okb {A} (f : A -> bool) (o : option A) : bool :=
   match o with None => true | Some x => f x end.
 
-Definition draw_okb (slack : Q) (c : cfg) (F len : Z) (p : params) : bool :=
-  opt_okb (warp_okb slack (c_Wt c) len) (p_tw p)
-  && opt_okb (warp_okb slack (c_Wf c) F) (p_fw p)
-  && opt_okb (tmasks_okb slack c len) (p_tm p)
+Definition draw_okb (wslack pslack : Q) (c : cfg) (F len : Z) (p : params) : bool :=
+  opt_okb (warp_okb wslack (c_Wt c) len) (p_tw p)
+  && opt_okb (warp_okb wslack (c_Wf c) F) (p_fw p)
+  && opt_okb (tmasks_okb pslack c len) (p_tm p)
   && opt_okb (fmasks_okb c F) (p_fm p).
 
 (* ---- masking ---------------------------------------------------------------------- *)
